@@ -207,6 +207,49 @@ fn run_case(line: &str) -> String {
     if outs.is_empty() { "ok".into() } else { outs.join(" ") }
 }
 
+/// `sqarray <entries> <flags>`: the SQ index array as `setup_io_uring` leaves it on the running kernel
+/// (the ring methods index the SQE array by `tail & mask`, so slot i must name SQE i)
+fn sq_array_probe(entries: u32, flags: u32) -> String {
+    use std::cell::RefCell;
+    use std::rc::Rc;
+    let seen: Rc<RefCell<(usize, u32, u32, usize)>> = Rc::new(RefCell::new((0, 0, 0, 0)));
+    let s2 = seen.clone();
+    sc::shim::set_handler(Box::new(move |nr, a, _| {
+        if nr == sc::nr::IO_URING_SETUP {
+            s2.borrow_mut().3 = a[1];
+            return None;
+        }
+        if nr == sc::nr::MMAP && a[5] == 0 && (a[4] as i32) >= 0 {
+            let r = unsafe { sc::raw_syscall6(nr, a[0], a[1], a[2], a[3], a[4], a[5]) };
+            if (r as isize) > 0 {
+                let p = s2.borrow().3 as *const u32; // io_uring_params: sq_entries = u32 0, sq_off.array = u32 16
+                let (e, arr) = unsafe { (*p, *p.add(16)) };
+                let mut g = s2.borrow_mut();
+                g.0 = r;
+                g.1 = e;
+                g.2 = arr;
+            }
+            return Some(r);
+        }
+        None
+    }));
+    let r = rusl::io_uring::setup_io_uring(entries, unsafe { core::mem::transmute::<u32, rusl::platform::IoUringParamFlags>(flags) }, 0, 0);
+    sc::shim::clear_handler();
+    match r {
+        Err(e) => format!("setup-err {}", e.code.map(|c| c.raw() as i64).unwrap_or(-1)),
+        Ok(ring) => {
+            let (addr, n, arr, _) = *seen.borrow();
+            if addr == 0 {
+                return "no-ring-mapping-seen".into();
+            }
+            let base = (addr + arr as usize) as *const u32;
+            let v: Vec<String> = (0..n as usize).map(|i| unsafe { core::ptr::read_volatile(base.add(i)) }.to_string()).collect();
+            drop(ring);
+            format!("arr {} {}", n, v.join(","))
+        }
+    }
+}
+
 fn main() {
     std::panic::set_hook(Box::new(|_| {}));
     let stdin = std::io::stdin();
@@ -215,7 +258,17 @@ fn main() {
     for line in stdin.lock().lines() {
         let line = line.unwrap();
         let t = line.trim();
-        let res = if t.starts_with("mode ") { "ok".to_string() } else { run_case(t) };
+        let w: Vec<&str> = t.split_whitespace().collect();
+        let res = if t.starts_with("mode ") {
+            "ok".to_string()
+        } else if let ["sqarray", e, f] = w.as_slice() {
+            match (e.parse::<u32>(), f.parse::<u32>()) {
+                (Ok(e), Ok(f)) => sq_array_probe(e, f),
+                _ => "bad-op".to_string(),
+            }
+        } else {
+            run_case(t)
+        };
         writeln!(out, "{}", res).unwrap();
     }
 }
